@@ -343,6 +343,10 @@ class KindFlow(MustFlow):
             return test.args[0].id, frozenset(yes), frozenset(no)
         if isinstance(test, ast.Call) and callee_name(test) == "is_undefined" and len(test.args) == 1 and isinstance(test.args[0], ast.Name):
             return test.args[0].id, _k("U"), _k("U")
+        if isinstance(test, ast.Call) and callee_name(test) == "is_truthy" and len(test.args) == 1 and isinstance(test.args[0], ast.Name):
+            # Liquid truthiness: everything except nil, false and undefined (objects answer
+            # through __liquid__, kind O)
+            return test.args[0].id, ALL - _k("NU"), ALL - _k("NBUO")
         if isinstance(test, ast.Compare) and len(test.ops) == 1 and isinstance(test.left, ast.Name) and isinstance(test.comparators[0], ast.Constant):
             cv = test.comparators[0].value
             if cv is None and isinstance(test.ops[0], ast.Is):
